@@ -91,6 +91,7 @@ class World:
         self.leafgen = leafgen         # optional adversarial leaf generator (C03)
         self.garbage, self.garbage_p = garbage, garbage_p  # hostile value at any position
         self.returns = []              # (response path, value returned by an explicit resolver)
+        self.dir_calls = []            # (directive, path, canon(directive_args), args) recorded by @vtrec
         self.calls = []                # (T.f, parent ident, canon(args), id(ctx))
         self.tr_calls = []             # (level, abstract, Tparent.field)
         self.anomalies = []            # things a resolver saw that cannot be right
